@@ -183,6 +183,7 @@ fn pool_saturation(seed: u64, tier: Tier) -> serde_json::Value {
         let scn = pool::PoolScn {
             broadcasts: vec![pool::Bcast { n, api: pool::Api::Broadcast, panics: Vec::new(), helper_caller: false }],
             spurious_parks: Vec::new(),
+            cas_weak_fail: Vec::new(),
         };
         let mut seen = std::collections::HashSet::new();
         let mut seen_orders = std::collections::HashSet::new();
